@@ -18,7 +18,7 @@ def EInstr.Valid : EInstr → Prop
   | .swi n => 0 ≤ n ∧ n < 16
   | .rti => True
 
-instance (e : EInstr) : Decidable e.Valid := by
+instance EInstr.decValid (e : EInstr) : Decidable e.Valid := by
   cases e <;> simp only [EInstr.Valid] <;> exact inferInstance
 
 def Cond.code : Cond → Nat
